@@ -691,7 +691,8 @@ func (s *Server) netServe() error {
 				pr.rd = rdbuf
 				pr.wr = client
 				msgs, err := pr.ReadMessages()
-				for _, msg := range msgs {
+				readErr := err
+				for i, msg := range msgs {
 					// Just closing connection if we have deprecated HTTP or WS connection,
 					// And --http-transport = false
 					if !s.http && (msg.ConnType == WebSocket ||
@@ -742,6 +743,10 @@ func (s *Server) netServe() error {
 								client.in = InputStream{}
 								client.pr.rd = rwc
 								client.pr.wr = rwc
+								// commands that arrived in the same packet behind
+								// this one are handled by the live loop
+								client.pr.pending = msgs[i+1:]
+								client.pr.pendingErr = readErr
 								client.closer = nil
 								wg.Done()
 								detached = true
@@ -1623,6 +1628,10 @@ type PipelineReader struct {
 	wr     io.Writer
 	packet [0xFFFF]byte
 	buf    []byte
+	// messages (and the error) already read from the packet of the command
+	// that detached the connection; returned by the next ReadMessages
+	pending    []*Message
+	pendingErr error
 }
 
 const kindHTTP redcon.Kind = 9999
@@ -1834,6 +1843,15 @@ func readNextCommand(packet []byte, argsIn [][]byte, msg *Message, wr io.Writer)
 // ReadMessages ...
 func (rd *PipelineReader) ReadMessages() ([]*Message, error) {
 	var msgs []*Message
+	if len(rd.pending) > 0 {
+		msgs, rd.pending = rd.pending, nil
+		return msgs, nil
+	}
+	if rd.pendingErr != nil {
+		err := rd.pendingErr
+		rd.pendingErr = nil
+		return nil, err
+	}
 moreData:
 	n, err := rd.rd.Read(rd.packet[:])
 	if err != nil {
